@@ -12,6 +12,11 @@ import IsoVerif.Driver.C06
 import IsoVerif.Driver.C05
 import IsoVerif.Driver.C10
 import IsoVerif.Driver.C09
+import IsoVerif.Driver.C08
+import IsoVerif.Driver.C03
+import IsoVerif.Driver.C16
+import IsoVerif.Driver.C12
+import IsoVerif.Driver.C07
 
 namespace IsoVerif.Driver
 
@@ -32,5 +37,10 @@ def allOps : List (String × Handler) :=
   ++ prefixOps "C05" C05.ops
   ++ prefixOps "C10" C10.ops
   ++ prefixOps "C09" C09.ops
+  ++ prefixOps "C08" C08.ops
+  ++ prefixOps "C03" C03.ops
+  ++ prefixOps "C16" C16.ops
+  ++ prefixOps "C12" C12.ops
+  ++ prefixOps "C07" C07.ops
 
 end IsoVerif.Driver
